@@ -1,6 +1,8 @@
 import MpsVerif.Drv.Fifo
+import MpsVerif.Drv.ProcOutcome
 
 def main (args : List String) : IO UInt32 := do
   match args with
   | ["fifo"] => Fifo.Drv.main; return 0
+  | ["procoutcome"] => ProcOutcome.Drv.main; return 0
   | _ => IO.eprintln s!"usage: drv <model>   (models: fifo)"; return 2
